@@ -4,11 +4,10 @@ import S3V.Props.C10Sig
 /-!
 # Findings of C05 / C06 / C10 (signature clause): kernel-checked facts about concrete requests
 
-Outside the pass/fail gate. State of the code: after the repairs b7c08fd, 4011296, 10af2bf.
+Outside the pass/fail gate. State of the code: after the repairs b7c08fd, 4011296, 10af2bf, d4ba65c.
 
-* OPEN deviations (counterexamples to the FULL statements): duplicate query names with unsorted values
-  (`sigv4-dup-query-unsorted`, header and presigned path) and, on the presigned path only, a name listed in
-  `X-Amz-SignedHeaders` that no header line carries (`sigv4-absent-signed-header`).
+* OPEN deviation (counterexamples to the FULL statements): duplicate query names with unsorted values
+  (`sigv4-dup-query-unsorted`, header and presigned path) — the only remaining obstacle.
 * REPAIRED classes, kept as regression facts: on the former counterexamples the model (which mirrors the repaired code
   and agrees with it on the replayed witnesses, `corpus/sigv4*.txt`) now equals the specification or refuses.
 -/
@@ -48,7 +47,7 @@ theorem C05_canon_impl_eq_spec_full_false : ¬ C05_canon_impl_eq_spec_full :=
   fun h => dup_query_unsorted (h sha0 none0 _)
 
 /-- at the level of the canonicalisation function alone a listed name without a header line is still dropped; the
-    caller `v4_check_header_auth` refuses such requests before (10af2bf), the presigned path does not -/
+    callers `v4_check_header_auth` (10af2bf) and `v4_check_presigned_url` (d4ba65c) refuse such requests before -/
 theorem absent_signed_header_function_level :
     canonImpl sha0 none0 { base with signed := [b!"host", b!"x-amz-meta-a", b!"x-not-there"] } ≠
     canonSpec sha0 { base with signed := [b!"host", b!"x-amz-meta-a", b!"x-not-there"] } := by decide
@@ -154,41 +153,51 @@ def ctxPreWith (signed sig : Bytes) : Ctx :=
 def prePresigned (signedList : List Bytes) (sig : Bytes) : Presigned :=
   ⟨b!"AWS4-HMAC-SHA256", ⟨b!"AK", b!"20130524", b!"r", b!"s3"⟩, ⟨2013, 5, 24, 0, 0, 0⟩, 60, signedList, sig⟩
 
-/-- the signature the CODE computes for a URL that lists the absent header `x-not-there` (the signature parameter is
-    not part of the signed text, so a placeholder may stand in while computing it) -/
-def absentSig : Bytes :=
-  presignedSignature shaId hmacSum (ctxPreWith b!"host;x-not-there" []) (prePresigned [b!"host", b!"x-not-there"] []) b!"secret"
+/-- repaired (d4ba65c), former class `sigv4-absent-signed-header` of `sigv4pre`: a URL listing a header the request
+    does not carry is refused before any signature is computed (here at 2013-05-24T00:00:10Z) -/
+theorem presigned_absent_header_refused :
+    v4CheckPresignedUrl shaId hmacSum (some look0) (1369353610 * 1000000000)
+      (ctxPreWith b!"host;x-not-there" b!"0000000000000000000000000000000000000000000000000000000000000000") =
+      .err .InvalidRequest := by decide +kernel
 
-/-- open class `sigv4-absent-signed-header` of `sigv4pre`: accepted at 2013-05-24T00:00:10Z -/
-theorem presigned_absent_header_accepted :
-    v4CheckPresignedUrl shaId hmacSum (some look0) (1369353610 * 1000000000) (ctxPreWith b!"host;x-not-there" absentSig) =
-      .accept b!"AK" b!"r" b!"s3" := by decide +kernel
+/-! open: `sigv4-dup-query-unsorted` on the presigned path — the one remaining obstacle to the full statement. A URL
+    with `prefix=b&prefix=a`, signed as the specification says, is refused. -/
 
-/-- …although the specification's signature for that URL (which keeps `x-not-there` in the signed-header block) is
-    another text -/
-theorem presigned_absent_header_spec_differs :
-    SigV4Spec.signature shaId hmacSum b!"secret" b!"20130524T000000Z" ⟨b!"20130524", b!"r", b!"s3"⟩
-      (SigV4Spec.presignedRequest b!"GET" b!"/bkt/k" (preQs b!"host;x-not-there" absentSig) [(b!"host", b!"h")]
-        [b!"host", b!"x-not-there"]) ≠ absentSig := by decide +kernel
+def dupPreQs (sig : Bytes) : List (Bytes × Bytes) := preQs b!"host" sig ++ [(b!"prefix", b!"b"), (b!"prefix", b!"a")]
+
+def ctxPreDup (sig : Bytes) : Ctx := { ctxPreWith b!"host" sig with qs := dupPreQs sig }
+
+/-- the specified signature (the signature parameter is not part of the signed text) -/
+def dupPreSig : Bytes :=
+  SigV4Spec.signature shaId hmacSum b!"secret" b!"20130524T000000Z" ⟨b!"20130524", b!"r", b!"s3"⟩
+    (SigV4Spec.presignedRequest b!"GET" b!"/bkt/k" (dupPreQs []) [(b!"host", b!"h")] [b!"host"])
+
+theorem presigned_spec_signed_dup_query_refused :
+    v4CheckPresignedUrl shaId hmacSum (some look0) (1369353610 * 1000000000) (ctxPreDup dupPreSig) =
+      .err .SignatureDoesNotMatch := by decide +kernel
 
 theorem C06_presigned_iff_full_false : ¬ S3V.C06.C06_presigned_iff_full := by
   intro h
-  have hraw : orderedHeaders (ctxPreWith b!"host;x-not-there" absentSig).hs = some (ctxPreWith b!"host;x-not-there" absentSig).hs := by
-    decide
-  obtain ⟨p, secret, date, hc, _, _, _, _, hsig⟩ :=
-    (h shaId hmacSum look0 _ _ _ b!"AK" b!"r" b!"s3" hraw).mp presigned_absent_header_accepted
-  have hp : parsePresigned (ctxPreWith b!"host;x-not-there" absentSig).qs =
-      some (prePresigned [b!"host", b!"x-not-there"] absentSig) := by decide +kernel
-  have hparsed := hc.parsed
-  rw [hp] at hparsed
-  injection hparsed with hparsed
-  subst hparsed
-  have hk := hc.key
-  have hk' : look0 b!"AK" = some b!"secret" := by decide
-  rw [show look0 (prePresigned [b!"host", b!"x-not-there"] absentSig).credential.accessKey = look0 b!"AK" from rfl, hk'] at hk
-  injection hk with hk
-  subst hk
-  exact presigned_absent_header_spec_differs hsig.symm
+  have hraw : orderedHeaders (ctxPreDup dupPreSig).hs = some (ctxPreDup dupPreSig).hs := by decide
+  have hchecks : PresignedChecks look0 (ctxPreDup dupPreSig) (prePresigned [b!"host"] dupPreSig) b!"secret" 1369353600 :=
+    { parsed := by decide +kernel
+      algorithm := rfl
+      scopeDate := by decide
+      sha := ⟨none, by decide⟩
+      time := by decide
+      key := by decide
+      present := by decide +kernel }
+  have hsig : (prePresigned [b!"host"] dupPreSig).signature =
+      SigV4Spec.signature shaId hmacSum b!"secret" (prePresigned [b!"host"] dupPreSig).amzDate.fmtIso8601
+        ⟨(prePresigned [b!"host"] dupPreSig).credential.date, b!"r", b!"s3"⟩
+        (SigV4Spec.presignedRequest (ctxPreDup dupPreSig).method (ctxPreDup dupPreSig).path (ctxPreDup dupPreSig).qs
+          (effectiveRaw (ctxPreDup dupPreSig).http2 (ctxPreDup dupPreSig).authority (ctxPreDup dupPreSig).hs)
+          (prePresigned [b!"host"] dupPreSig).signedHeaders) := by decide +kernel
+  have hacc := (h shaId hmacSum look0 (1369353610 * 1000000000) (ctxPreDup dupPreSig) (ctxPreDup dupPreSig).hs
+    b!"AK" b!"r" b!"s3" hraw).mpr
+    ⟨prePresigned [b!"host"] dupPreSig, b!"secret", 1369353600, hchecks, rfl, rfl, rfl, by decide, hsig⟩
+  rw [presigned_spec_signed_dup_query_refused] at hacc
+  cases hacc
 
 /-- repaired (4011296), former class `sigv4-credential-date-ignored` of `sigv4pre` -/
 theorem presigned_other_scope_day_refused :
